@@ -967,7 +967,7 @@ def mop_text(i, k, v):
         s = tag + hx(bytes(x))
     return "%d.%d.%s" % (i, k, s)
 
-def gen_ops(rng, ref, nops, bias_guards=True, focus=False, exotic=0.0):
+def gen_ops(rng, ref, nops, bias_guards=True, focus=False, exotic=0.0, fill=0.0):
     """random parameter messages; returns (ops text, model ops text) and leaves ref in the reached state.
     focus: the first messages switch one guard (switch of a pointer sub-tree / 'enabled by' toggle) on and
     write two of the ports it governs, so that the saved file holds a dependency among its lines"""
@@ -997,6 +997,23 @@ def gen_ops(rng, ref, nops, bias_guards=True, focus=False, exotic=0.0):
             below2 = [i for i, fp in enumerate(flat) if g2 in fp.hard + fp.soft and i != g1]
             plan = [g1, g2] + rng.sample(below2, min(len(below2), 1))
             n_on = 2
+    if fill and rng.random() < fill:
+        # every element of one float array gets a value of its own: a line of up to 8 lossless floats
+        # ("1.50 (0x1.8p+0)" each) is longer than the 80 columns of the default options, so the printer's
+        # line breaks - and the column it starts counting at - show in the saved text
+        arrs = [i for i, fp in enumerate(flat) if fp.leaf.kind == "af" and fp.leaf.n >= 4 and ref.exists(i)]
+        if arrs:
+            i = rng.choice(arrs)
+            p = flat[i].leaf
+            for k in range(p.n):
+                for _ in range(20):
+                    x = f2b(nice_float(rng) + k) if rng.random() < 0.5 else f2b(rng.uniform(-20, 20))
+                    if (p.min is None or b2f(x) >= b2f(p.min)) and (p.max is None or b2f(x) <= b2f(p.max)):
+                        break
+                v = ("f", x)
+                ops.append(op_text(flat[i].path + str(k), v))
+                mops.append(mop_text(i, k, v))
+                ref.send(i, k, v)
     for n_op in range(nops):
         r = rng.random()
         if n_op < len(plan):
